@@ -80,10 +80,20 @@ ExtName(kind) == CASE kind \in {"single_quote", "single_quote_name"} -> "single_
                    [] OTHER -> kind
 NextNonSpace(text, i) == LET S == {j \in (i + 1)..Len(text) : text[j] \notin {32, 9, 10, 13}} IN
                          IF S = {} THEN Len(text) ELSE (CHOOSE j \in S : \A k \in S : j <= k) - 1
+\* trailing bytes that begin with "/": to strict mode (which knows no comments) just another byte after the value - refused
+\* without, accepted with the allow-trailing-characters flag; default mode takes "/" for the start of a comment and is not judged
+TrailSlashOk(r) ==
+    LET e == G!Denote(r.equiv) IN
+    IF ~e.ok THEN PrintT(<<"GEN", l>>)
+    ELSE /\ r.strict.st # "success" /\ r.strict_utf8.st # "success"
+         /\ IF e.big THEN r.trail.st # "success"
+            ELSE /\ r.trail.st = "success" /\ r.trail.val = e.v
+                 /\ r.trail.end >= Len(r.equiv) /\ r.trail.end <= NextNonSpace(r.text, Len(r.equiv))
 InjectOk(r) ==
     LET e == G!Denote(r.equiv)
         p == G!Permissive(r.text) IN
-    IF ~e.ok \/ ~p.ok \/ ExtName(r.kind) \notin p.ext THEN PrintT(<<"GEN", l>>)
+    IF r.kind = "trailing_slash" THEN TrailSlashOk(r)
+    ELSE IF ~e.ok \/ ~p.ok \/ ExtName(r.kind) \notin p.ext THEN PrintT(<<"GEN", l>>)
     ELSE /\ r.strict.st # "success"
          /\ r.strict_utf8.st # "success"            \* strict mode is strict whatever other flags accompany it
          /\ r.deflt.st = "success" /\ r.deflt.val = e.v
